@@ -673,6 +673,10 @@ def run(ctx, led):
     run_rule(led, "H10", "the cached profile explanation is reset whenever the profile changes (shared with C17-L12)", _C17.l12, ctx)
     run_rule(led, "H11", "WITNESS-POINT of pointwise hole explanations lies in the profile and in the task's run", h11, ctx)
     run_rule(led, "H13", "incremental insertion handles the gap and the overlap for every overlapped profile (MUST-PASS on the loop)", h13, ctx)
+    from . import C12 as _C12, C01 as _C01, C13 as _C13
+    run_rule(led, "H18", "a negative-scale start-time view exchanges exactly the bound events when it registers (shared with C12-V9)", _C12.v9, ctx)
+    run_rule(led, "H19", "two tasks over the same variable are both registered: a watcher is skipped only for an identical (propagator, local id) pair (shared with C01-S5c)", _C01.s5c, ctx)
+    run_rule(led, "H20", "the FlatZinc cumulative builtin is compiled to the cumulative constructor only (shared with C13-F3)", _C13.f3, ctx)
     run_rule(led, "H17", "TABLE: create_tasks keeps a task iff usage > 0 and duration > 0 (zero-duration tasks occupy no time point)", h17, ctx)
     run_rule(led, "H16", "CACHE-KEY: the per-profile explanation cache is initialised from the profile only (shared with C17-L25)", _C17.l25, ctx)
     run_rule(led, "H15", "WHO-MAY-SHRINK: tasks leave a resource profile only where a mandatory part is undone (shared with C17-L24)", _C17.l24, ctx)
